@@ -1,6 +1,7 @@
 package main
 
 import (
+	"context"
 	"fmt"
 	"net/url"
 	"reflect"
@@ -190,6 +191,34 @@ func runContainer(in J) interface{} {
 			}()
 			kind := fmt.Sprint(op["kind"])
 			switch op["op"] {
+			case "decoded":
+				// start from the container the decoder builds from a JSON member (an array, or a bare value for one
+				// element) instead of from the empty container
+				var ids []interface{}
+				for k := 0; k < intOf(op["k"], 0); k++ {
+					ids = append(ids, fmt.Sprintf("https://v.example/%d", 1000+k))
+				}
+				var member interface{} = orEmpty(ids)
+				if len(ids) == 1 && op["bare"] == true {
+					member = ids[0]
+				}
+				doc := map[string]interface{}{"@context": allCtx, "type": fmt.Sprint(op["host"]), pe.Name: member}
+				t, err := streams.ToType(context.Background(), doc)
+				if err != nil {
+					panic("decode failed: " + err.Error())
+				}
+				g := reflect.ValueOf(t).MethodByName(pe.Getter)
+				if !g.IsValid() {
+					panic("no getter " + pe.Getter)
+				}
+				got := g.Call(nil)[0]
+				if got.Kind() == reflect.Interface && got.IsNil() {
+					panic("decoded property is nil")
+				}
+				p = got.Elem()
+				if p.Kind() != reflect.Ptr {
+					p = got
+				}
 			case "append":
 				v, ok := mk(op, "Append")
 				if ok {
@@ -359,6 +388,38 @@ func init() {
 					}
 					cur := 0 // current length, to keep most indexes in range
 					var ops []interface{}
+					// a quarter of the sequences start from a decoded container of 0..4 IRIs (where an IRI string is read
+					// as an IRI, i.e. the property's first element kind)
+					if c%4 == 3 && pe.Name != "type" && pe.Name != "id" && len(propPlans[pe.Name].Kinds) > 0 && propPlans[pe.Name].Kinds[0] == "iri" {
+						host := ""
+						for _, tn := range sortedTypeNames() {
+							for _, pn := range typeProps[tn] {
+								if pn == pe.Name {
+									host = tn
+								}
+							}
+							if host != "" {
+								break
+							}
+						}
+						if host != "" {
+							k := r.intn(5)
+							var toks []interface{}
+							for j := 0; j < k; j++ {
+								if tok, ok := tokOf("IRI", 1000+j, "Append"); ok {
+									toks = append(toks, tok)
+								}
+							}
+							if len(toks) == k {
+								ops = append(ops, J{"op": "decoded", "k": k, "host": host, "bare": r.bool(), "toks": orEmpty(toks)})
+								cur = k
+								// half of them are observed as decoded (Prepend / Insert / Remove re-index every element)
+								if r.bool() {
+									l = 0
+								}
+							}
+						}
+					}
 					for n := 0; n < l; n++ {
 						kind := "IRI"
 						if r.chance(40) {
